@@ -148,8 +148,70 @@ fn corpus(i: usize) -> Option<(bool, bool, Vec<Vec<T>>)> {
             let t6 = tree(&[(0, dir(&[(0, fx)])), (1, V::Sub(0)), (2, V::Link(0))]);
             Some((true, false, vec![vec![t1], vec![t2, t3, t4], vec![t6]]))
         }
+        2 => {
+            // A directory that cancels inside a 5-way file/directory conflict, at two paths
+            // and at different term positions: p = f1 / T / T / f0 / f2 (content-mergeable),
+            // q = g1 / g0 / U / U / g2 (content-mergeable). try_resolve_file_values must
+            // simplify the terms before it decides that "the paths are not files".
+            let t = dir(&[(0, file(10))]);
+            let u = dir(&[(1, file(11))]);
+            let t0 = tree(&[(0, file(1)), (1, file(4))]);
+            let t1 = tree(&[(0, t.clone()), (1, file(0))]);
+            let t2 = tree(&[(0, t), (1, u.clone())]);
+            let t3 = tree(&[(0, file(0)), (1, u)]);
+            let t4 = tree(&[(0, file(2)), (1, file(5))]);
+            Some((true, false, vec![vec![t0], vec![t1], vec![t2], vec![t3], vec![t4]]))
+        }
         _ => None,
     }
+}
+
+/// 5- and 7-way merges of resolved trees in which 1-3 paths hold one identical directory in
+/// an adjacent add/remove pair of terms (at varying positions) and files in the other terms;
+/// the files resolve after the directory pair is cancelled (trivially, by same change, or
+/// by content merge) or stay conflicted; plus a path that stays conflicted and a resolved one.
+fn gen_dir_cancel(rng: &mut Rng) -> Vec<Vec<T>> {
+    let k = if rng.chance(2, 3) { 5 } else { 7 };
+    let mut trees: Vec<T> = vec![T::new(); k];
+    let npaths = 1 + rng.usize(3);
+    for name in 0..npaths as u8 {
+        let r = 1 + 2 * rng.usize(k / 2);
+        let a = if rng.chance(1, 2) { r - 1 } else { r + 1 };
+        let d = dir(&[(rng.below(2) as u8, file(10 + rng.usize(2)))]);
+        let style = rng.below(5);
+        let edits = [1usize, 2, 5, 4];
+        let mut nth_add = 0;
+        for (i, t) in trees.iter_mut().enumerate() {
+            let v = if i == r || i == a {
+                d.clone()
+            } else if i % 2 == 1 {
+                file(if style == 4 { 11 } else { 0 })
+            } else {
+                let c = match style {
+                    0 => if nth_add == 0 { 1 } else { 0 }, // one side changed: trivial
+                    1 | 2 => edits[nth_add % 4],            // different lines: content merge
+                    3 => 3,                                  // all sides made the same change
+                    _ => 8 + nth_add % 3,                    // unmergeable
+                };
+                nth_add += 1;
+                file(c)
+            };
+            t.insert(name, v);
+        }
+    }
+    let next = npaths as u8;
+    if rng.chance(2, 3) {
+        // a path that stays conflicted
+        for (i, t) in trees.iter_mut().enumerate() {
+            t.insert(next, file(if i % 2 == 1 { 11 } else { 8 + (i / 2) % 3 }));
+        }
+    }
+    if rng.chance(1, 2) {
+        for (i, t) in trees.iter_mut().enumerate() {
+            t.insert(next + 1, file(if i == 0 { 9 } else { 8 }));
+        }
+    }
+    trees.into_iter().map(|t| vec![t]).collect()
 }
 
 fn gen_inputs(rng: &mut Rng) -> (Vec<Vec<T>>, &'static str) {
@@ -171,7 +233,8 @@ fn gen_inputs(rng: &mut Rng) -> (Vec<Vec<T>>, &'static str) {
         let b = if rng.chance(1, 2) { t.clone() } else { mutated(rng, t, 1, names, rich) };
         vec![m(rng, &b), b.clone(), m(rng, &b)]
     };
-    match rng.below(20) {
+    match rng.below(23) {
+        20..=22 => (gen_dir_cancel(rng), "dircancel"),
         0..=5 => (vec![vec![m(rng, &base)], vec![base.clone()], vec![m(rng, &base)]], "3way"),
         6 => {
             let a = m(rng, &base);
@@ -332,7 +395,7 @@ fn main() {
             );
             let arity = o.unresolved.iter().count();
             let conflicted_paths = o.values.iter().filter(|(_, v)| !v.is_resolved()).count();
-            let kind = if arity >= 5 && kind != "corpus" { "any" } else { kind };
+            let kind = if arity >= 5 && kind != "corpus" && kind != "dircancel" { "any" } else { kind };
             let shape = format!(
                 "{kind} arity={} {}{}",
                 arity.min(7),
